@@ -24,12 +24,12 @@ contract("monkeytype.stubs:ImportMap.merge", props=["C11"], theories=TH,
 
 contract("monkeytype.stubs:_get_optional_elem", props=["C11"], theories=TH,
          params={"anno": "Ty"}, result="Ty",
-         requires={"wf": "wf_rw(anno) and anno is not ELLIPSIS_"},
+         requires={"wf": "wf_ann(anno) and anno is not ELLIPSIS_"},
          # the alternatives of the result are the alternatives of the Optional other than NoneType
          ensures={"post:members": "forall_v(lambda a: umember(result, a) == (umember(anno, a) and a is not NONETYPE))",
                   "post:single": "implies(len(args(anno)) == 2, exists(args(anno), lambda a: a is result and a is not NONETYPE))",
                   "post:union": "implies(len(args(anno)) >= 3, kind(result) is K_Union)",
-                  "post:wf": "wf_rw(result) and result is not ELLIPSIS_ and result is not NONETYPE",
+                  "post:wf": "wf_ann(result) and result is not ELLIPSIS_ and result is not NONETYPE", "post:wf-rw": "implies(wf_rw(anno), wf_rw(result))",
                   "post:not-optional": "not (kind(result) is K_Union and umember(result, NONETYPE))",
                   "post:depth": "depth(result) <= depth(anno)"},
          hints={"distinct3": "implies(len(args(anno)) >= 3, nth(args(anno), 0) is not nth(args(anno), 1) and nth(args(anno), 0) is not nth(args(anno), 2) and nth(args(anno), 1) is not nth(args(anno), 2))",
@@ -43,7 +43,7 @@ _OPT = "(kind({a}) is K_Union and umember({a}, NONETYPE))"
 contract("monkeytype.stubs:get_imports_for_annotation", props=["C11"], theories=TH, scc="imports",
          decreases=["depth(anno)", "ite(%s, 1, 0)" % _OPT.format(a="anno")],
          params={"anno": "Anno"}, result="ImportMap",
-         requires={"wf": "anno is EMPTY or anno is ELLIPSIS_ or wf_rw(anno) or kind(anno) is K_ForwardRef"},
+         requires={"wf": "anno is EMPTY or anno is ELLIPSIS_ or wf_ann(anno)"},
          # C11: every name the rendered annotation uses is in the import map, under the module that provides it
          ensures={"post:complete": _PROV.format(cond="uses(anno, m, n) and reveal_uses(anno)", imp="result"),
                   "post:not-none": "result is not None"},
@@ -60,7 +60,7 @@ contract("monkeytype.stubs:get_imports_for_annotation", props=["C11"], theories=
                             "not-none": "imports is not None"}},
                 "tags": {"imports": "ImportMap"}})
 
-_ANNO_WF = "({a} is EMPTY or {a} is ELLIPSIS_ or wf_rw({a}) or kind({a}) is K_ForwardRef)"
+_ANNO_WF = "({a} is EMPTY or {a} is ELLIPSIS_ or wf_ann({a}))"
 contract("monkeytype.stubs:get_imports_for_signature", props=["C11"], theories=TH,
          params={"sig": "Sig"}, result="ImportMap",
          requires={"annos-wf": "forall(params_of(sig), lambda p: %s and panno(p) is not UNION_BARE) and %s" % (_ANNO_WF.format(a="panno(p)"), _ANNO_WF.format(a="ret_of(sig)"))},
